@@ -423,7 +423,7 @@ def emission_algebra(prog, chk):
     chk.touch(b)
     n = 0
     bad = []
-    for shape in ("rect", "circle", "ellipse"):
+    for shape in ("rect", "circle", "ellipse", "use", "image"):
         for px, (ax, bx) in PAIRS.items():
             for py, (ay, by) in PAIRS.items():
                 for with_d in (True, False):
@@ -448,8 +448,10 @@ def emission_algebra(prog, chk):
                     dy = {"DY": Fraction(1)} if with_d else {}
                     L = A.L
                     half = lambda a, c: L._scale(L._add(a, c), Fraction(1, 2))
-                    if shape == "rect":
+                    if shape in ("rect", "image"):
                         want = {"x": L._add(Ax, dx), "y": L._add(Ay, dy), "width": L._add(Bx, Ax, -1), "height": L._add(By, Ay, -1)}
+                    elif shape == "use":
+                        want = {"x": L._add(Ax, dx), "y": L._add(Ay, dy)}  # a <use> is placed, never sized
                     elif shape == "circle":
                         want = {"cx": L._add(half(Ax, Bx), dx), "cy": L._add(half(Ay, By), dy), "r": L._scale(L._add(Bx, Ax, -1), Fraction(1, 2))}
                     else:
@@ -459,8 +461,8 @@ def emission_algebra(prog, chk):
                     if diffs:
                         k = diffs[0]
                         bad.append(f"{shape} x:{'+'.join(px)} y:{'+'.join(py)}{' dx/dy' if with_d else ''}: `{k}` is {A.canon(got.get(k))}, the constraints give {A.canon(want.get(k))}")
-    chk.floor("A17.emission", n, 216, "shape x constraint-pair x constraint-pair x offset case of set_position_attrs")
-    chk.ob(not bad, "A17.emission", "set_position_attrs", b.where(), f"all {n} cases (3 shapes x 36 constraint combinations x with/without dx,dy) write exactly the geometry the constraints define", f"{len(bad)} of {n} cases disagree with the defining equations, e.g. {bad[0] if bad else ''}" + (f"; {bad[1]}" if len(bad) > 1 else ""))
+    chk.floor("A17.emission", n, 360, "shape x constraint-pair x constraint-pair x offset case of set_position_attrs")
+    chk.ob(not bad, "A17.emission", "set_position_attrs", b.where(), f"all {n} cases (5 shapes x 36 constraint combinations x with/without dx,dy) write exactly the geometry the constraints define", f"{len(bad)} of {n} cases disagree with the defining equations, e.g. {bad[0] if bad else ''}" + (f"; {bad[1]}" if len(bad) > 1 else ""))
 
 
 def _sub_axis(expr, axis):
